@@ -56,10 +56,76 @@ def run(ctx):
   from . import C02, C04
   C02.initial_values(ctx)
   C04.tearfree_sketchy(ctx)
+  averaging_window(ctx)
   # the FD root of Distributed Shampoo continues the sketch of ITS statistic: statistic, exponent, padding start and
   # previous sketch are taken from the same replica slot and the same list position
   from . import C13
   C13.axis_names(ctx)
+
+
+def averaging_window(ctx):
+  """R5 (Distributed Shampoo, frequent directions with average_grad): the sketch is fed, every k = statistics_compute_steps
+  steps, the MEAN of the k gradients since the last refresh: the accumulator restarts (takes the gradient itself) exactly
+  on the first step of a window - step % k == 1, and on every step when k == 1 - and otherwise adds the gradient; what
+  goes into the sketch is accumulator / k.  The restart test is decided by evaluating it on a grid of (k, step): a test
+  that never fires for k == 1 feeds the sketch the running SUM of all gradients."""
+  from ..ideal import Point
+  from ..lib import rec_fields, select_arms, econd_summary
+  m = ctx.model
+  fi = m.func('distributed_shampoo', 'distributed_shampoo._compute_stats')
+  ctx.analysed(fi)
+  d = Decider(truth={'frequent_directions': True, 'average_grad': True}, calls={('_skip_preconditioning',): False})
+  ev = evaluator(m, decide=d, opaque={'preconditioner_from_params', 'updated_statistics_from_grad', '_skip_preconditioning'},
+                 summaries={'efficient_cond': econd_summary})
+  r = ev.run(fi)
+  ctx.evaluations += 1
+  rf = rec_fields(r)
+  if rf is None or 'avg_grad' not in rf:
+    raise AnalysisError('_compute_stats does not return a ParameterStats record with avg_grad')
+  G = sym('param', fi.short, 'grad')
+  ST = sym('param', fi.short, 'state')
+  STEP = sym('param', fi.short, 'step')
+  K = sym('cfg', 'distributed_shampoo', 'statistics_compute_steps')
+  acc = strip_casts(rf['avg_grad'])
+  sa = select_arms(acc)
+  cmpr = Comparer()
+  summed = spec_term(ev, 'state.avg_grad + grad', {'state': ST, 'grad': G})
+  ok_form = sa is not None and ((sa[2] is G and cmpr.same(sa[3], summed)) or (sa[3] is G and cmpr.same(sa[2], summed)))
+  ctx.ob('C09.R5', fi.short, 'gradient accumulator = select(restart, grad, accumulator + grad)', ok_form,
+         f'with average_grad the accumulator must be either the gradient (window restart) or accumulator + gradient; got `{show(acc, maxdepth=4)[:200]}`', ctx.loc(fi),
+         sample='where(restart, grad, avg_grad + grad)')
+  if ok_form:
+    restart_on_true = sa[2] is G
+    bad = []
+    undecided = None
+    for k in (1, 2, 3, 5):
+      for step in range(0, 11):
+        pt = Point(lambda t, k=k, step=step: ('num', k) if t is K else (('num', step) if t is STEP else None))
+        v = pt.ival(sa[1])
+        if v is None or v == 'indet':
+          undecided = (k, step)
+          break
+        fires = bool(v[1]) == restart_on_true
+        want = (k == 1) or (step % k == 1)
+        if fires != want:
+          bad.append((k, step, fires))
+      if undecided:
+        break
+    if undecided:
+      ctx.defer(f'C09.R5: the restart test of the gradient accumulator could not be evaluated at (k, step) = {undecided}')
+    else:
+      ctx.ob('C09.R5', fi.short, 'the accumulator restarts exactly on the first step of each window', not bad,
+             f'the restart test must hold iff statistics_compute_steps == 1 or step % statistics_compute_steps == 1; at (k, step, restarts) it gives {bad[:4]}',
+             ctx.loc(fi), sample='restart iff k == 1 or step % k == 1')
+  # what the sketch is fed: accumulator / k
+  from ..lib import method_name
+  calls = list(dict.fromkeys(x for x in walk(rf['statistics']) if x.op == 'call' and method_name(x) == 'updated_statistics_from_grad'))
+  ctx.need('C09.R5', len(calls), 1, 'statistics update call in _compute_stats')
+  for c in calls:
+    g_in = dict(c.args[2]).get('grad', c.args[1][1] if len(c.args[1]) > 1 else NONE)
+    ctx.ob('C09.R5', fi.short, 'the sketch is fed accumulator / statistics_compute_steps', cmpr.same(g_in, spec_term(ev, 'a / k', {'a': rf['avg_grad'], 'k': K})),
+           f'with average_grad the gradient handed to the statistics update must be new_avg_grad / statistics_compute_steps; got `{show(g_in, maxdepth=4)[:160]}`',
+           ctx.loc(fi), sample='grad = new_avg_grad / statistics_compute_steps')
 
 
 def thin_svd(ctx):
